@@ -344,6 +344,24 @@ def parallel_assignment(prog, chk):
         "no path leads from an assignment (set_var) to an evaluation (eval_attr): all attributes of one <var> are evaluated before any is assigned",
         f"an evaluation can run after an assignment of the same <var> (set_var at {[ve.where(b) for b, _ in bad]} reaches eval_attr) - assignment is no longer simultaneous",
     )
+    # all or nothing: an evaluation that failed ends the <var> before anything is assigned.  From the Err edge of an
+    # evaluation's result no assignment is reachable (a <var> that assigns some attributes and then reports the error of
+    # another is retried as a whole - `n="{{$n+1}}"` is then applied twice)
+    set_blocks = {b for (b, t, c) in sets}
+    leaks = []
+    for (eb, et, ec) in evals:
+        if not et.get("dest") or et["dest"][1]:
+            continue
+        for (sb, st) in R.discr_switches_of(ve, et["dest"][0]):
+            m = {v: tgt for v, tgt in st["vals"]}
+            err_t = m.get(1, st["otherwise"] if 0 in m else None)
+            ok_t = m.get(0, st["otherwise"] if 1 in m else None)
+            if err_t is None or err_t == ok_t:
+                continue
+            if set_blocks & set(ve.reach([err_t], avoid=[ok_t] if ok_t is not None else [])):
+                leaks.append(ve.where(eb, et.get("line")))
+        # through `?`: the Break edge returns (nothing to check)
+    chk.ob(not leaks, "A13.parallel-assign", "VarElement:all-or-nothing", ve.where(), "after a failed evaluation no attribute of the <var> is assigned", f"an assignment (set_var) is reachable after the evaluation at {leaks[:2]} has failed: the attributes that did evaluate are assigned although the <var> fails and is retried - an update such as n=\"{{{{$n+1}}}}\" or a swap a=\"$b\" b=\"$a\" is applied twice")
     # set_var is the only way VarElement stores, and who else calls set_var
     callers = sorted({re.sub(r"(::\{closure#\d+\})+", "", x.path) for x in prog.callers_of(prog.body(SETVAR))})
     expected = sorted(
